@@ -48,7 +48,7 @@ class C05(Prop):
             order = orders.get(w, ps)
             if sorted(order) != ps:
                 order = ps          # the probe was drawn for another state (reduced replay)
-            got = case.call("get_webentity_pages", t.get_webentity_pages, w, list(order))
+            got = case.call("get_webentity_pages", t.get_webentity_pages, w, ob.args(order))
             lrus = [bytes(g["lru"]) for g in got]
             if len(lrus) != len(set(lrus)):
                 dup = sorted(l for l in set(lrus) if lrus.count(l) > 1)
@@ -59,10 +59,15 @@ class C05(Prop):
                          % (w, sorted(exp - set(lrus))[:2], sorted(set(lrus) - exp)[:2],
                             [R.get(x) for x in sorted(set(lrus) - exp)[:2]]), case)
             for g in got:
+                lg = bytes(g["lru"])
+                if lg in case.led.pages and lg not in case.led.k2_only and bool(g["crawled"]) != case.led.pages[lg]:
+                    ctx.fail("crawled-mark-vs-submissions", "get_webentity_pages(%r) reports %r crawled=%r, the submissions say %r"
+                             % (w, lg, g["crawled"], case.led.pages[lg]), case)
+            for g in got:
                 if bool(g["crawled"]) != pg[bytes(g["lru"])]:
                     ctx.fail("crawled-mark", "get_webentity_pages(%r) reports %r crawled=%r, pages_iter says %r"
                              % (w, g["lru"], g["crawled"], pg[bytes(g["lru"])]), case)
-            gc = case.call("get_webentity_crawled_pages", t.get_webentity_crawled_pages, w, list(order))
+            gc = case.call("get_webentity_crawled_pages", t.get_webentity_crawled_pages, w, ob.args(order))
             cl = [bytes(g["lru"]) for g in gc]
             if len(cl) != len(set(cl)) or set(cl) != set(p for p in exp if pg[p]) or not all(g["crawled"] for g in gc):
                 ctx.fail("crawled-only", "get_webentity_crawled_pages(%r) = %r, expected the crawled subset %r"
@@ -104,5 +109,18 @@ class C05(Prop):
     def nontrivial(self, case):
         return "nested-webentities-with-pages" in case.flags
 
+
+    # scale probe (tv/scale.py): 320 webentities (ids beyond 256), 1280+ pages, judged once by this property's oracle
+    def extra_checks(self, ctx, tier, seed, shard, nshards):
+        if shard != 2 % nshards:
+            return
+        from ..scale import build
+        case = build(self, ctx, 320 if tier == "quick" else 700)
+        try:
+            self.check_state(case, {})
+            ctx.extra["scale_probe_pages"] += len(case.led.pages)
+            ctx.extra["scale_probe_webentities"] += len(case.led.webentities())
+        finally:
+            case.abort()
 
 PROP = C05()
